@@ -295,7 +295,10 @@ func (t *Dense) TensorMul(other Tensor, axesA, axesB []int) (retVal *Dense, err 
 	newAxesA := BorrowInts(len(notins) + len(axesA))
 	defer ReturnInts(newAxesA)
 	newAxesA = newAxesA[:0]
-	newAxesA = append(notins, axesA...)
+	// not append(notins, axesA...): notins is truncated and refilled for the other
+	// operand below, which would rewrite these axes if they shared its backing array
+	newAxesA = append(newAxesA, notins...)
+	newAxesA = append(newAxesA, axesA...)
 	n2 := 1
 	for _, a := range axesA {
 		n2 *= ts[a]
